@@ -41,7 +41,11 @@ Pool == <<
   \* sent with an empty value (the client asks for no content coding / names no user agent)
   [id |-> "pragma",    fs |-> <<F("pragma", "no-cache")>>],
   [id |-> "aeEmpty",   fs |-> <<F("accept-encoding", "")>>],
-  [id |-> "uaEmpty",   fs |-> <<F("user-agent", "")>>]
+  [id |-> "uaEmpty",   fs |-> <<F("user-agent", "")>>],
+  \* X-Forwarded-* present with an empty value: present, not "absent" - passed on as they are
+  [id |-> "xfhostEmpty",  fs |-> <<F("x-forwarded-host", "")>>],
+  [id |-> "xfprotoEmpty", fs |-> <<F("x-forwarded-proto", "")>>],
+  [id |-> "xfurlEmpty",   fs |-> <<F("x-forwarded-url", "")>>]
 >>
 Items == 1..Len(Pool)
 \* items that cannot be combined (they use the same field in conflicting ways)
@@ -49,6 +53,7 @@ UpgradeItems == {13, 23, 24}
 Conflict(S) == \/ (S \cap UpgradeItems # {} /\ S \cap {12, 6} # {}) \/ Cardinality(S \cap UpgradeItems) > 1
                \/ Cardinality(S \cap {14, 15}) > 1 \/ Cardinality(S \cap {16, 17}) > 1
                \/ Cardinality(S \cap {22, 26}) > 1 \/ Cardinality(S \cap {21, 27}) > 1
+               \/ Cardinality(S \cap {19, 28}) > 1 \/ Cardinality(S \cap {18, 29}) > 1 \/ Cardinality(S \cap {20, 30}) > 1
 Selections == {S \in SUBSET Items : Cardinality(S) <= MaxItems /\ ~Conflict(S)}
 
 RECURSIVE Flatten(_, _)
